@@ -1,8 +1,12 @@
-(* Correspondence check for C24: one entry written through the real
-   FilerStoreWrapper (InsertEntry or UpdateEntry, possibly over an older version)
-   on leveldb / leveldb2 / leveldb3, read back by FindEntry and by
-   ListDirectoryEntries.  The harness reports WHICH fields of the read-back entry
-   differ from the written one (codes below) and the read-back file id strings. *)
+(* Correspondence check for C24: a sequence of entries written through the real
+   FilerStoreWrapper (InsertEntry or UpdateEntry; sibling names, overwrites, a
+   subdirectory) on leveldb / leveldb2 / leveldb3, then every name read back by
+   FindEntry, by the wrapper's ListDirectoryEntries (whole directory and one page) and
+   by ListDirectoryPrefixedEntries (prefix, start name, inclusive, limit: the
+   filer's production listing path).  The harness reports WHICH fields of each
+   read-back entry differ from the entry last written under that name (codes
+   below), the read-back file id strings, and the raw FileId/SourceFileId fields of
+   the prefixed listing. *)
 From Coq Require Import List NArith ZArith Bool String.
 From SW Require Export base.Verdict model.UploadCodec model.EntryCodec.
 Import ListNotations.
@@ -23,9 +27,9 @@ Definition mkc (id : fidstr) (off : Z) (size : N) (mtime : Z) (etag : string) (s
   {| c_file_id := id; c_offset := off; c_size := size; c_mtime := mtime; c_etag := etag;
      c_source_file_id := src; c_fid := f; c_source_fid := sf; c_cipher_key := ck;
      c_is_compressed := comp; c_is_manifest := man |}.
-Definition mka (mtime crtime : Z) (mode uid gid : N) (mime repl coll : string) (ttl : Z)
+Definition mka (mtime : Z) (mtime_ns : N) (crtime : Z) (crtime_ns : N) (mode uid gid : N) (mime repl coll : string) (ttl : Z)
                (disk user : string) (groups : list string) (symlink : string) (md5 : bytes) (fsize : N) : attr :=
-  {| a_mtime := mtime; a_crtime := crtime; a_mode := mode; a_uid := uid; a_gid := gid; a_mime := mime;
+  {| a_mtime := mtime; a_mtime_ns := mtime_ns; a_crtime := crtime; a_crtime_ns := crtime_ns; a_mode := mode; a_uid := uid; a_gid := gid; a_mime := mime;
      a_replication := repl; a_collection := coll; a_ttl_sec := ttl; a_disk_type := disk;
      a_user_name := user; a_group_names := groups; a_symlink_target := symlink; a_md5 := md5;
      a_file_size := fsize |}.
@@ -35,21 +39,37 @@ Definition mke (a : attr) (ext : list (string * bytes)) (cs : list chunk) (hl : 
   {| e_attr := a; e_extended := ext; e_chunks := cs; e_hard_link_id := hl; e_hard_link_counter := hlc;
      e_content := content; e_remote := r |}.
 
+(* one InsertEntry / UpdateEntry *)
+Record wr := {
+  w_dir : string; w_name : string;
+  w_update : bool;       (* written with UpdateEntry *)
+  w_ent : entry;         (* as written; extended attributes sorted by key *)
+  (* measurements of the real protobuf / gzip on the marshalled entry (read from the raw stored value) *)
+  w_head : list N;       (* its first two bytes *)
+  w_blen : N; w_glen : N;
+  w_ok : bool            (* no error returned *)
+}.
+Definition mkw d n u e h bl gl ok : wr :=
+  {| w_dir := d; w_name := n; w_update := u; w_ent := e; w_head := h; w_blen := bl; w_glen := gl; w_ok := ok |}.
+
+(* one entry as read back: differing fields against the entry last written under that
+   name (ascending codes), per chunk (file id, source file id) as a reader sees them *)
+Record rb := { b_name : string; b_diff : list N; b_ids : list (fidstr * fidstr) }.
+Definition mkb n d i : rb := {| b_name := n; b_diff := d; b_ids := i |}.
+
 Record case := {
   store : N;             (* 0 leveldb, 1 leveldb2, 2 leveldb3 *)
-  via_update : bool;     (* written with UpdateEntry *)
-  had_previous : bool;   (* an older, different entry was inserted at the same path first *)
-  dir : string; name : string;
-  ent : entry;           (* as written; extended attributes sorted by key *)
-  (* measurements of the real protobuf / gzip on the marshalled entry *)
-  blob_head : list N;    (* its first two bytes *)
-  blob_len : N; gzip_len : N;
+  dir : string;          (* the directory that is read back *)
+  writes : list wr;      (* in order; into dir, or into a subdirectory of it *)
+  q_start : string; q_incl : bool; q_limit : N; q_prefix : string;   (* the paged / prefixed listing *)
   (* implementation observables *)
-  i_insert_ok : bool;
-  i_stored_gz : option bool;          (* the raw stored value carries the gzip magic (leveldb, leveldb3) *)
-  i_find_diff : list N; i_list_diff : list N;          (* differing fields, ascending codes *)
-  i_find_ids : list (fidstr * fidstr); i_list_ids : list (fidstr * fidstr);  (* per chunk: file id, source file id *)
-  i_list_names : N                    (* names in the directory listing *)
+  i_names : list string;                (* distinct names written into dir, ascending byte order (Go sort.Strings) *)
+  i_stored_gz : list (option bool);     (* per name: the raw stored value carries the gzip magic *)
+  i_find : list rb;                     (* per name: FilerStoreWrapper.FindEntry *)
+  i_wlist : list rb;                    (* wrapper.ListDirectoryEntries(dir, "", true, 1000), in the order returned *)
+  i_wpage : list string;                (* names from wrapper.ListDirectoryEntries(dir, start, incl, limit) *)
+  i_plist : list rb;                    (* wrapper.ListDirectoryPrefixedEntries(dir, start, incl, limit, prefix) *)
+  i_plist_raw : list (list (fidstr * fidstr))   (* ... the raw FileId / SourceFileId fields of its chunks *)
 }.
 
 (* ---- equality of field values ---- *)
@@ -84,7 +104,7 @@ Fixpoint all2p {A} (f : A -> A -> bool) (a b : list A) : bool :=
    0 Mtime 1 Crtime 2 Mode 3 Uid 4 Gid 5 Mime 6 Replication 7 Collection 8 TtlSec 9 DiskType
    10 UserName 11 GroupNames 12 SymlinkTarget 13 Md5 14 FileSize 15 Extended 16 chunk count
    17 chunk file id 18 chunk source file id 19 other chunk fields 20 HardLinkId
-   21 HardLinkCounter 22 Content 23 Remote *)
+   21 HardLinkCounter 22 Content 23 Remote 24 Mtime nanoseconds 25 Crtime nanoseconds *)
 Definition diff_entry (w r : entry) : list N :=
   let a := e_attr w in let b := e_attr r in
   let cw := map view_chunk (e_chunks w) in let cr := map view_chunk (e_chunks r) in
@@ -102,44 +122,59 @@ Definition diff_entry (w r : entry) : list N :=
      (19, all2p chunk_other_eqb cw cr);
      (20, bytes_eqb (e_hard_link_id w) (e_hard_link_id r));
      (21, Z.eqb (e_hard_link_counter w) (e_hard_link_counter r));
-     (22, bytes_eqb (e_content w) (e_content r)); (23, remote_eqb (e_remote w) (e_remote r))].
+     (22, bytes_eqb (e_content w) (e_content r)); (23, remote_eqb (e_remote w) (e_remote r));
+     (24, a_mtime_ns a =? a_mtime_ns b); (25, a_crtime_ns a =? a_crtime_ns b)].
 
 Definition ids_of (e : entry) : list (fidstr * fidstr) :=
   map (fun c => (c_file_id (view_chunk c), c_source_file_id (view_chunk c))) (e_chunks e).
+Definition raw_ids_of (e : entry) : list (fidstr * fidstr) :=
+  map (fun c => (c_file_id c, c_source_file_id c)) (e_chunks e).
 
-Definition ids_eqb (a b : list (fidstr * fidstr)) : bool :=
-  list_eqb (fun x y => bytes_eqb (fst x) (fst y) && bytes_eqb (snd x) (snd y)) a b.
-
+Definition pair_ids_eqb (x y : fidstr * fidstr) : bool := bytes_eqb (fst x) (fst y) && bytes_eqb (snd x) (snd y).
+Definition ids_eqb (a b : list (fidstr * fidstr)) : bool := list_eqb pair_ids_eqb a b.
 Definition nlist_eqb (a b : list N) : bool := list_eqb N.eqb a b.
+Definition rb_eqb (a b : rb) : bool :=
+  String.eqb (b_name a) (b_name b) && nlist_eqb (b_diff a) (b_diff b) && ids_eqb (b_ids a) (b_ids b).
 
 (* ---- the model run ---- *)
+(* every write is run with the oracle lengths measured on ITS blob; the state type does not
+   depend on them *)
+Definition run_writes (ws : list wr) : option (state sblob) :=
+  fold_left (fun st w =>
+    match st with
+    | Some s => wrapper_insert (sym_codec (w_blen w) (w_glen w)) s (w_dir w, w_name w) (w_ent w)
+    | None => None
+    end) ws (Some empty_state).
+
+Definition last_written (c : case) (n : string) : option entry :=
+  fold_left (fun acc w => if String.eqb (w_dir w) (dir c) && String.eqb (w_name w) n then Some (w_ent w) else acc)
+            (writes c) None.
+
+Definition C0 : codec sblob := sym_codec 0 0.   (* reading never consults the lengths *)
+
+Definition mk_rb (c : case) (ne : string * option entry) : rb :=
+  {| b_name := fst ne;
+     b_diff := match snd ne, last_written c (fst ne) with Some r, Some w => diff_entry w r | _, _ => [99] end;
+     b_ids := match snd ne with Some r => ids_of r | None => [] end |}.
+
 Record model_out := {
-  mo_insert_ok : bool; mo_stored_gz : bool;
-  mo_find_diff : list N; mo_list_diff : list N;
-  mo_find_ids : list (fidstr * fidstr); mo_list_ids : list (fidstr * fidstr);
-  mo_list_names : N }.
+  mo_names : list string; mo_gz : list bool; mo_find : list rb; mo_wlist : list rb;
+  mo_wpage : list string; mo_plist : list rb; mo_plist_raw : list (list (fidstr * fidstr)) }.
 
-Definition bad_out : model_out :=
-  {| mo_insert_ok := false; mo_stored_gz := false; mo_find_diff := [99]; mo_list_diff := [99];
-     mo_find_ids := []; mo_list_ids := []; mo_list_names := 0 |}.
-
-(* any earlier contents of the store do not matter (c24_roundtrip is for every
-   prior state), so the model runs from the empty store *)
-Definition run_model (c : case) : model_out :=
-  let C := sym_codec (blob_len c) (gzip_len c) in
-  let p := (dir c, name c) in
-  match wrapper_insert C empty_state p (ent c) with
-  | None => bad_out
+Definition run_model (c : case) : option model_out :=
+  match run_writes (writes c) with
+  | None => None
   | Some st =>
-      let gz := match aget path_eqb p (st_entries st) with Some (SGz _) => true | _ => false end in
-      let listing := wrapper_list C st (dir c) in
-      match wrapper_find C st p, aget String.eqb (name c) listing with
-      | SOk f, Some (Some l) =>
-          {| mo_insert_ok := true; mo_stored_gz := gz;
-             mo_find_diff := diff_entry (ent c) f; mo_list_diff := diff_entry (ent c) l;
-             mo_find_ids := ids_of f; mo_list_ids := ids_of l; mo_list_names := len listing |}
-      | _, _ => bad_out
-      end
+      let names := sort_names (names_in st (dir c)) in
+      let lim := N.to_nat (q_limit c) in
+      let pl := wrapper_list_prefixed C0 st (dir c) (q_start c) (q_incl c) lim (q_prefix c) in
+      Some {| mo_names := names;
+              mo_gz := map (fun n => match aget path_eqb (dir c, n) (st_entries st) with Some (SGz _) => true | _ => false end) names;
+              mo_find := map (fun n => mk_rb c (n, match wrapper_find C0 st (dir c, n) with SOk e => Some e | _ => None end)) names;
+              mo_wlist := map (mk_rb c) (wrapper_list C0 st (dir c) "" true 1000);
+              mo_wpage := map fst (wrapper_list C0 st (dir c) (q_start c) (q_incl c) lim);
+              mo_plist := map (mk_rb c) pl;
+              mo_plist_raw := map (fun ne => match snd ne with Some r => raw_ids_of r | None => [] end) pl |}
   end.
 
 (* ---- the property's oracle, on what the implementation returned ---- *)
@@ -160,27 +195,59 @@ Definition only_id_text (d : list N) : bool := forallb (fun k => (k =? 17) || (k
 
 Definition looks_gzip (h : list N) : bool := match h with 31 :: 139 :: _ => true | _ => false end.
 
+(* one read-back entry against what was last written under its name *)
+Definition rb_ok (c : case) (b : rb) : bool :=
+  match last_written c (b_name b) with
+  | Some w => only_id_text (b_diff b) && ids_ok (ids_of w) (b_ids b)
+  | None => false
+  end.
+
+Definition names_eqb (a b : list string) : bool := list_eqb String.eqb a b.
+
+Fixpoint opt_gz_ok (i : list (option bool)) (m : list bool) : bool :=
+  match i, m with
+  | [], [] => true
+  | x :: i', y :: m' => match x with Some g => Bool.eqb g y | None => true end && opt_gz_ok i' m'
+  | _, _ => false
+  end.
+
+Definition first_byte_ok (w : wr) : bool :=
+  match pb_first_byte (to_pb (prepare (w_ent w))), w_head w with
+  | Some a, b :: _ => a =? b
+  | None, [] => true
+  | _, _ => false
+  end.
+
+Definition final_entries (c : case) : list entry :=
+  flat_map (fun n => match last_written c n with Some e => [e] | None => [] end) (i_names c).
+
 Definition check (c : case) : outcome :=
-  let m := run_model c in
-  let first := match blob_head c with a :: _ => Some a | [] => None end in
+  let all_ok := forallb w_ok (writes c) in
+  let lim := N.to_nat (q_limit c) in
   {| o_corr :=
-       Bool.eqb (mo_insert_ok m) (i_insert_ok c) &&
-       match i_stored_gz c with Some g => Bool.eqb g (mo_stored_gz m) | None => true end &&
-       nlist_eqb (mo_find_diff m) (i_find_diff c) && nlist_eqb (mo_list_diff m) (i_list_diff c) &&
-       ids_eqb (mo_find_ids m) (i_find_ids c) && ids_eqb (mo_list_ids m) (i_list_ids c) &&
-       (mo_list_names m =? i_list_names c) &&
-       (* the first-byte law of the protobuf oracle, on this entry *)
-       match pb_first_byte (to_pb (prepare (ent c))), first with
-       | Some a, Some b => a =? b
-       | None, None => true
-       | _, _ => false
-       end;
+       match run_model c with
+       | None => negb all_ok
+       | Some m =>
+           all_ok && names_eqb (mo_names m) (i_names c) && opt_gz_ok (i_stored_gz c) (mo_gz m) &&
+           list_eqb rb_eqb (mo_find m) (i_find c) && list_eqb rb_eqb (mo_wlist m) (i_wlist c) &&
+           names_eqb (mo_wpage m) (i_wpage c) && list_eqb rb_eqb (mo_plist m) (i_plist c) &&
+           list_eqb ids_eqb (mo_plist_raw m) (i_plist_raw c)
+       end &&
+       (* the first-byte law of the protobuf oracle, on every written entry *)
+       forallb first_byte_ok (writes c);
      o_prop :=
-       i_insert_ok c && only_id_text (i_find_diff c) && only_id_text (i_list_diff c) &&
-       ids_ok (ids_of (ent c)) (i_find_ids c) && ids_ok (ids_of (ent c)) (i_list_ids c) &&
-       negb (looks_gzip (blob_head c));
-     o_trig := if trigger_octet (ent c) then Some 0
-               else if trigger_key_zero (ent c) then Some 1 else None;
-     o_nontrivial := i_insert_ok c && (nonempty (e_chunks (ent c)) || nonempty (e_content (ent c))) |}.
+       all_ok &&
+       (* lookup: every name, equal up to the text of the file ids *)
+       names_eqb (map b_name (i_find c)) (i_names c) && forallb (rb_ok c) (i_find c) &&
+       (* the whole directory: exactly the names written, ascending, each equal *)
+       names_eqb (map b_name (i_wlist c)) (i_names c) && forallb (rb_ok c) (i_wlist c) &&
+       (* a page / a prefixed page: the first `limit` of the names that pass the filter *)
+       names_eqb (i_wpage c) (firstn lim (filter (list_filter (q_start c) (q_incl c) "") (i_names c))) &&
+       names_eqb (map b_name (i_plist c)) (firstn lim (filter (list_filter (q_start c) (q_incl c) (q_prefix c)) (i_names c))) &&
+       forallb (rb_ok c) (i_plist c) &&
+       forallb (fun w => negb (looks_gzip (w_head w))) (writes c);
+     o_trig := if existsb trigger_octet (final_entries c) then Some 0
+               else if existsb trigger_subsec (final_entries c) then Some 2 else None;
+     o_nontrivial := all_ok && existsb (fun e => nonempty (e_chunks e) || nonempty (e_content e)) (final_entries c) |}.
 
 Definition summarize_cases (l : list case) : summary := summarize check l.
